@@ -1,3 +1,3 @@
 SPECIFICATION Spec
-INVARIANTS Inv_WellFormed Inv_C18_Exclusive Inv_C18_ReleaseAfterSend Inv_C18_QuiescentEmpty Inv_C18_SameBytes
+INVARIANTS Inv_WellFormed Inv_C02_OwnPayload Inv_C18_Exclusive Inv_C18_ReleaseAfterSend Inv_C18_QuiescentEmpty Inv_C18_SameBytes
 CHECK_DEADLOCK FALSE
